@@ -162,6 +162,46 @@ static jwk_item_t *mk_item(void)
 }
 
 #ifdef SIDE_LIST
+#if !defined(ONLY_OP) || ONLY_OP == 0
+#define REACH_L0(c, m) REACH(c, m)
+#else
+#define REACH_L0(c, m) ((void)0)
+#endif
+#if !defined(ONLY_OP) || ONLY_OP == 1
+#define REACH_L1(c, m) REACH(c, m)
+#else
+#define REACH_L1(c, m) ((void)0)
+#endif
+#if !defined(ONLY_OP) || ONLY_OP == 2
+#define REACH_L2(c, m) REACH(c, m)
+#else
+#define REACH_L2(c, m) ((void)0)
+#endif
+#if !defined(ONLY_OP) || ONLY_OP == 3
+#define REACH_L3(c, m) REACH(c, m)
+#else
+#define REACH_L3(c, m) ((void)0)
+#endif
+#if !defined(ONLY_OP) || ONLY_OP == 4
+#define REACH_L4(c, m) REACH(c, m)
+#else
+#define REACH_L4(c, m) ((void)0)
+#endif
+#if !defined(ONLY_OP) || ONLY_OP == 5
+#define REACH_L5(c, m) REACH(c, m)
+#else
+#define REACH_L5(c, m) ((void)0)
+#endif
+#if !defined(ONLY_OP) || ONLY_OP == 6
+#define REACH_L6(c, m) REACH(c, m)
+#else
+#define REACH_L6(c, m) ((void)0)
+#endif
+#if !defined(ONLY_OP) || ONLY_OP == 7
+#define REACH_L7(c, m) REACH(c, m)
+#else
+#define REACH_L7(c, m) ((void)0)
+#endif
 int main(void)
 {
 	jwk_set_t *set;
@@ -216,7 +256,7 @@ int main(void)
 		const jwk_item_t *g = jwks_item_get(set, idx);
 		PROP(g == (idx < n ? ref[idx] : NULL), "C16: item_get(i) is the i-th item in load order, NULL out of range");
 		#if NITEMS >= 1
-		REACH(idx == NITEMS - 1 && g, "last item fetched");
+		REACH_L0(idx == NITEMS - 1 && g, "last item fetched");
 #endif
 		break;
 	}
@@ -233,10 +273,10 @@ int main(void)
 				want = ref[i];
 		PROP(g == want, "C16: find_bykid returns the first item whose kid equals the argument exactly");
 		#if NITEMS >= 2
-		REACH(g && g == ref[1], "second item found by kid");
+		REACH_L2(g && g == ref[1], "second item found by kid");
 #endif
 		#if NITEMS >= 1
-		REACH(!g && ref_haskid[0] && q[0] == 'a' && q[1] == 'c', "near-miss kid not found");
+		REACH_L2(!g && ref_haskid[0] && q[0] == 'a' && q[1] == 'c', "near-miss kid not found");
 #endif
 		break;
 	}
@@ -251,9 +291,9 @@ int main(void)
 					exp[m++] = ref[i];
 		}
 		#if NITEMS >= 3
-		REACH(r == 1 && idx == 1, "middle item removed");
+		REACH_L3(r == 1 && idx == 1, "middle item removed");
 #endif
-		REACH(r == 0, "out-of-range index");
+		REACH_L3(r == 0, "out-of-range index");
 		break;
 	}
 	case 4: {       /* jwks_item_free_bad */
@@ -269,7 +309,7 @@ int main(void)
 		}
 		PROP(r == bad, "C16: item_free_bad returns the number of errored items");
 		#if NITEMS >= 3
-		REACH(r == 2 && !ref_err[1], "two bad items around a good one removed");
+		REACH_L4(r == 2 && !ref_err[1], "two bad items around a good one removed");
 #endif
 		break;
 	}
@@ -290,7 +330,7 @@ int main(void)
 	default:        /* jwks_free */
 		jwks_free(set);
 		PROP(vf_live == base_live && vj_live == base_vj, "C16: jwks_free releases the keyring, every item and everything they own");
-		REACH(1, "keyring freed");
+		REACH_L7(1, "keyring freed");
 		return 0;
 	}
 
@@ -479,9 +519,11 @@ int main(void)
 					PROP(!it->error, "C07: a well-formed oct key is usable");
 			}
 			if (i == CNT - 1) {
+#if SHAPE == 2 || SHAPE == 5 || SHAPE == 6
 				REACH(!it->error && it->kty == JWK_KEY_TYPE_OCT, "usable oct item");
 				REACH(!it->error && it->kty == JWK_KEY_TYPE_EC, "element imported through the provider");
-#if SHAPE != 2
+#endif
+#if SHAPE == 1 || SHAPE == 5 || SHAPE == 6 || SHAPE == 7
 				REACH(it->error && el->type != JSON_OBJECT, "non-object element reported");
 #endif
 #if SHAPE == 7
